@@ -208,6 +208,34 @@ def validate_native(n):
     return cnt, bad
 
 
+def native_random(n4: int, n5: int, n6: int):
+    """Pseudo-random ADMGs on 4-6 nodes (shuffled insertion order), every ordered pair and conditioning set, natively
+    against the reference.  Not solver-decided: it keeps the check able to *show* a violation on a tree whose source the
+    interpreter cannot encode (then with a larger sample) and validates the translation beyond the 3-node corpus."""
+    import random
+
+    rng = random.Random(2000 + seed())
+    bad, cnt = [], 0
+    for n, count in ((4, n4), (5, n5), (6, n6)):
+        U = universe(n)
+        for _ in range(count):
+            order = U[:]
+            rng.shuffle(order)
+            pd, pb = rng.choice((0.25, 0.45)), rng.choice((0.2, 0.35))
+            di = [p for p in itt.combinations(order, 2) if rng.random() < pd]
+            bi = [p for p in itt.combinations(U, 2) if rng.random() < pb]
+            rng.shuffle(bi)
+            for a, b in itt.permutations(U, 2):
+                rest = [v for v in U if v not in (a, b)]
+                for k in range(len(rest) + 1):
+                    for C in itt.combinations(rest, k):
+                        cnt += 1
+                        r = native_case(U, di, bi, a, b, list(C), order=order)
+                        if r["bad"] and len(bad) < 5:
+                            bad.append(r)
+    return cnt, bad
+
+
 def vwork(n):
     return validate_native(n)
 
@@ -273,6 +301,11 @@ def run() -> int:
             rep.add_sample({"query": key, "verdict": r["verdict"], "encode_s": round(r["encode_s"], 2), "solve_s": round(r["solve_s"], 2), "bool_vars": r["nvars"]})
     vn = 3
     cnt, bad = validate_native(vn)
+    unsupported = any("encoding cannot be built" in h for h in rep.harness_errors)
+    cnt2, bad2 = native_random(*((300, 200, 60) if unsupported else (40, 25, 8)))
+    cnt += cnt2
+    bad = bad + bad2
+    rep.extra["native_random_graphs"] = {"queries": cnt2, "note": "pseudo-random 4-6 node ADMGs, not solver-decided" + ("; enlarged because the encoding could not be built on this tree" if unsupported else "")}
     for b in bad:
         what = f"are_d_separated({b['a']}, {b['b']} | {b['C']}) on nodes={b['nodes']} di={b['di']} bi={b['bi']}: {b['observed']}, m-separation says separated={b['expected_separated']} (native validation corpus)"
         rep.add_violation(Violation(PROP, [f"native {b['a']} {b['b']} {b['C']}"], what, {"property": PROP, **b}))
